@@ -40,8 +40,10 @@ VARIABLES
     route,  \* the route the lookup settled on
     up,     \* the request the upstream is to receive
     hits,   \* number of times an upstream was contacted
-    out     \* what the client is to receive
-vars == <<pc, sel, c, i, route, up, hits, out>>
+    out,    \* what the client is to receive
+    env     \* the no-route page: [page: the page configured now, seen: every page that was configured at some
+            \* moment since the request arrived, k: the next registry operation of c.pagehist]
+vars == <<pc, sel, c, i, route, up, hits, out, env>>
 
 -----------------------------------------------------------------------------
 \* sequences
@@ -72,7 +74,8 @@ NoManaged == [clientip |-> NoHdr, xff |-> NoHdr, xrealip |-> NoHdr, tlshdr |-> N
               xfproto |-> NoHdr, forwarded |-> NoHdr, xfport |-> NoHdr, xfhost |-> NoHdr]
 NoUp   == [method |-> "", path |-> <<>>, query |-> <<>>, host |-> "", managed |-> NoManaged]
 NoLoc  == [scheme |-> "", host |-> "", path |-> <<>>, qmode |-> "", query |-> <<>>]
-NoOut  == [kind |-> "", status |-> 0, page |-> "", loc |-> NoLoc, resp |-> "", sts |-> NoHdr, cut |-> FALSE]
+NoOut  == [kind |-> "", status |-> 0, page |-> "", pages |-> <<>>, loc |-> NoLoc, resp |-> "", sts |-> NoHdr, cut |-> FALSE]
+AllPages == <<"", "page", "page2">>     \* no page, a page, a longer page
 
 -----------------------------------------------------------------------------
 \* C07: what BuildTarget makes of the request
@@ -106,6 +109,11 @@ NormPath(p) == IF p = <<>> THEN <<"/">> ELSE p
 \* a history: the requests (host, path, query) that went through the same route one after the other, the case's own
 \* request last.  A redirect route answers each of them from that request alone ("req" = its own host).
 HistAnswers(r) == [k \in DOMAIN c.hist |-> Location(r, c.hist[k].path, c.hist[k].query)]
+\* the same for the requests that arrive one after the other over ONE client connection (C08): the port and the
+\* host that fabio tells the upstream are those of each request, not of the connection's first one
+StepPort(h)  == IF h.rhost = "ported" THEN "reqport" ELSE IF c.tls THEN "443" ELSE "80"
+ConnAnswers  == [k \in DOMAIN c.hist |-> [xfport |-> [mode |-> "eq", vals |-> <<StepPort(c.hist[k])>>],
+                                          xfhost |-> [mode |-> "eq", vals |-> <<"reqhost">>]]]
 Sent(h)     == c.forged[h] # "absent"
 \* the scheme of the request: what the proxy in front said, else what the connection is
 ReqScheme   == IF Sent("xfproto") THEN c.xfpval ELSE IF c.tls THEN "https" ELSE "http"
@@ -166,65 +174,89 @@ ExpSTS == IF ~c.tls THEN Eq(<<>>)
 
 -----------------------------------------------------------------------------
 Init == /\ pc = "init" /\ sel = <<>> /\ c = <<>> /\ i = 0 /\ route = NoRouteRec
-        /\ up = NoUp /\ hits = 0 /\ out = NoOut
+        /\ up = NoUp /\ hits = 0 /\ out = NoOut /\ env = [page |-> "", seen |-> {""}, k |-> 1]
 
 ChooseOuter == /\ pc = "init"
                /\ \E o \in Outer : sel' = o
                /\ pc' = "outer"
-               /\ UNCHANGED <<c, i, route, up, hits, out>>
+               /\ UNCHANGED <<c, i, route, up, hits, out, env>>
 ChooseCase  == /\ pc = "outer"
                /\ \E x \in Inner(sel) : c' = x
-               /\ pc' = "lookup" /\ i' = 1
+               /\ pc' = "pages" /\ i' = 1
+               /\ env' = [page |-> c'.nrpage, seen |-> {c'.nrpage}, k |-> 1]
                /\ UNCHANGED <<sel, route, up, hits, out>>
+
+\* The no-route page is part of the environment: the registry delivers pages (set, replace, remove) before the
+\* request arrives ...
+RegistryPage == /\ pc = "pages" /\ env.k <= Len(c.pagehist)
+                /\ env' = [page |-> c.pagehist[env.k], seen |-> {c.pagehist[env.k]}, k |-> env.k + 1]
+                /\ UNCHANGED <<pc, sel, c, i, route, up, hits, out>>
+Arrive       == /\ pc = "pages" /\ env.k > Len(c.pagehist)
+                /\ pc' = "lookup"
+                /\ UNCHANGED <<sel, c, i, route, up, hits, out, env>>
+\* ... and may replace the page while the request is being answered (c.flip: the pages it alternates between)
+PageUpdate   == /\ pc = "lookup"
+                /\ \E p \in {c.flip[k] : k \in DOMAIN c.flip} \ {env.page} :
+                       env' = [env EXCEPT !.page = p, !.seen = @ \cup {p}]
+                /\ UNCHANGED <<pc, sel, c, i, route, up, hits, out>>
 
 \* candidate routes are examined in the order of the matching hosts, most specific first
 Matches(r) == IsPrefixDec(r.src, c.path)
 PassOver(r) == ~Matches(r) \/ (IsRedirect(r) /\ PointsBack(r))
 Lookup   == /\ pc = "lookup" /\ i <= Len(c.routes) /\ ~PassOver(c.routes[i])
             /\ route' = c.routes[i] /\ pc' = "found"
-            /\ UNCHANGED <<sel, c, i, up, hits, out>>
+            /\ UNCHANGED <<sel, c, i, up, hits, out, env>>
 NextHost == /\ pc = "lookup" /\ i <= Len(c.routes) /\ PassOver(c.routes[i])
             /\ i' = i + 1
-            /\ UNCHANGED <<pc, sel, c, route, up, hits, out>>
+            /\ UNCHANGED <<pc, sel, c, route, up, hits, out, env>>
 NoRoute  == /\ pc = "lookup" /\ i > Len(c.routes)
-            /\ out' = [NoOut EXCEPT !.kind = "noroute", !.status = c.nrstatus, !.page = c.nrpage]
+            \* the page is read ONCE: the answer is the page configured at that moment, complete; the client, which cannot
+            \* see that moment, accepts every page configured at some moment since its request arrived (out.pages)
+            /\ out' = [NoOut EXCEPT !.kind = "noroute", !.status = c.nrstatus, !.page = env.page,
+                                    !.pages = SelectSeq(AllPages, LAMBDA x : x \in env.seen)]
             /\ pc' = "done"
-            /\ UNCHANGED <<sel, c, i, route, up, hits>>
+            /\ UNCHANGED <<sel, c, i, route, up, hits, env>>
 Deny     == /\ pc = "found" /\ ~route.admitted
             /\ out' = [NoOut EXCEPT !.kind = "denied", !.status = 403]
             /\ pc' = "done"
-            /\ UNCHANGED <<sel, c, i, route, up, hits>>
+            /\ UNCHANGED <<sel, c, i, route, up, hits, env>>
 Redirect == /\ pc = "found" /\ route.admitted /\ IsRedirect(route)
             /\ out' = [NoOut EXCEPT !.kind = "redirect", !.status = route.code.num,
                                     !.loc = Location(route, c.path, c.query)]
             /\ pc' = "done"
-            /\ UNCHANGED <<sel, c, i, route, up, hits>>
+            /\ UNCHANGED <<sel, c, i, route, up, hits, env>>
 BuildTarget == /\ pc = "found" /\ route.admitted /\ ~IsRedirect(route)
                /\ up' = [method |-> c.method, path |-> UpstreamPath(route, c.path),
                          query |-> UpstreamQuery(route, c.query), host |-> UpstreamHost(route), managed |-> NoManaged]
                /\ pc' = "target"
-               /\ UNCHANGED <<sel, c, i, route, hits, out>>
+               /\ UNCHANGED <<sel, c, i, route, hits, out, env>>
 AddHeaders == /\ pc = "target"
               /\ up' = [up EXCEPT !.managed = Managed]
               /\ pc' = "headers"
-              /\ UNCHANGED <<sel, c, i, route, hits, out>>
+              /\ UNCHANGED <<sel, c, i, route, hits, out, env>>
 Forward  == /\ pc = "headers"
             /\ hits' = hits + 1
             /\ pc' = "forwarded"
-            /\ UNCHANGED <<sel, c, i, route, up, out>>
+            /\ UNCHANGED <<sel, c, i, route, up, out, env>>
 Respond  == /\ pc = "forwarded"
             \* an upstream that dies before its answer is complete: the client must not be told the answer is complete
             /\ out' = [NoOut EXCEPT !.kind = "upstream", !.resp = c.resp, !.sts = ExpSTS, !.cut = (c.resp \in Faulty)]
             /\ pc' = "done"
-            /\ UNCHANGED <<sel, c, i, route, up, hits>>
+            /\ UNCHANGED <<sel, c, i, route, up, hits, env>>
 
-Next == \/ ChooseOuter \/ ChooseCase \/ Lookup \/ NextHost \/ NoRoute \/ Deny \/ Redirect
+Next == \/ ChooseOuter \/ ChooseCase \/ RegistryPage \/ Arrive \/ PageUpdate \/ Lookup \/ NextHost \/ NoRoute \/ Deny \/ Redirect
         \/ BuildTarget \/ AddHeaders \/ Forward \/ Respond
 Spec == Init /\ [][Next]_vars
 
 -----------------------------------------------------------------------------
 \* properties of the pipeline (invariants, checked by TLC on the bounded universes)
 Chosen    == pc \notin {"init", "outer"}
+\* the no-route answer carries a page that was configured while the request was there - after the registry's
+\* operations the one delivered last, and nothing of a page that has been removed
+NoRoutePageWasConfigured == (pc = "done" /\ out.kind = "noroute") =>
+                               /\ out.page = env.page /\ out.page \in env.seen
+                               /\ (c.flip = <<>> => out.pages = <<out.page>>)
+                               /\ (c.flip = <<>> /\ c.pagehist # <<>> => out.page = c.pagehist[Len(c.pagehist)])
 Forwarded == hits > 0
 \* an upstream is contacted only for an admitted request that found an ordinary route, and once
 ForwardOnlyRouted == Forwarded => /\ hits = 1 /\ route # NoRouteRec /\ Matches(route)
@@ -259,6 +291,9 @@ HistoryIndependent == (pc = "done" /\ out.kind = "redirect" /\ c.hist # <<>>) =>
                           /\ \A j, k \in DOMAIN c.hist :
                                 (c.hist[j].path = c.hist[k].path /\ c.hist[j].query = c.hist[k].query)
                                    => HistAnswers(route)[j] = HistAnswers(route)[k]     \* whatever came in between, whoever asked
+ConnectionIndependent == (Forwarded /\ c.hist # <<>> /\ ~Sent("xfport") /\ ~Sent("xfhost")) =>
+                             /\ up.managed.xfport = ConnAnswers[Len(c.hist)].xfport
+                             /\ up.managed.xfhost = ConnAnswers[Len(c.hist)].xfhost
 RedirectCarriesQuery == (pc = "done" /\ out.kind = "redirect" /\ route.tpl.var) =>
                              out.loc.query = (IF route.tpl.query = <<>> THEN c.query ELSE route.tpl.query)
 =============================================================================
